@@ -8,6 +8,7 @@
 package main
 
 import (
+	"io"
 	"bytes"
 	"context"
 	"crypto/sha256"
@@ -156,6 +157,7 @@ func (l *leaf) count(id uuid.UUID) int {
 
 type relay struct {
 	name   string
+	px     *proxy
 	prs    *fractal.PersistentRemoteSuperior
 	cancel context.CancelFunc
 	probe  *leaf
@@ -291,12 +293,63 @@ func (d *drv) sync(r *relay) bool {
 	return true
 }
 
+// proxy: a TCP forwarder between a relay and the pool, so that the connection can be cut abruptly in the middle
+type proxy struct {
+	l     net.Listener
+	mu    sync.Mutex
+	conns []net.Conn
+}
+
+func newProxy(target string) (*proxy, error) {
+	l, err := net.Listen("tcp", "127.0.0.1:0")
+	if err != nil {
+		return nil, err
+	}
+	p := &proxy{l: l}
+	go func() {
+		for {
+			c, err := l.Accept()
+			if err != nil {
+				return
+			}
+			u, err := net.Dial("tcp", target)
+			if err != nil {
+				c.Close()
+				continue
+			}
+			p.mu.Lock()
+			p.conns = append(p.conns, c, u)
+			p.mu.Unlock()
+			go func() { io.Copy(u, c); u.Close(); c.Close() }()
+			go func() { io.Copy(c, u); u.Close(); c.Close() }()
+		}
+	}()
+	return p, nil
+}
+
+// sever cuts every connection through the proxy and refuses new ones
+func (p *proxy) sever() {
+	p.l.Close()
+	p.mu.Lock()
+	for _, c := range p.conns {
+		if tc, ok := c.(*net.TCPConn); ok {
+			tc.SetLinger(0) // reset, not an orderly close
+		}
+		c.Close()
+	}
+	p.mu.Unlock()
+}
+
 func (d *drv) connect(name string) string {
-	prs, cancel, err := fractal.NewPersistentRemoteSuperior(d.ctx, connection.DialAddress(d.addr))
+	px, err := newProxy(d.addr)
 	if err != nil {
 		return "err: " + err.Error()
 	}
-	r := &relay{name: name, prs: prs, cancel: cancel, probe: d.newLeaf("probe-" + name)}
+	prs, cancel, err := fractal.NewPersistentRemoteSuperior(d.ctx, connection.DialAddress(px.l.Addr().String()))
+	if err != nil {
+		return "err: " + err.Error()
+	}
+	r := &relay{name: name, px: px, prs: prs, cancel: cancel, probe: d.newLeaf("probe-" + name)}
 	prs.Subscribe(d.ctx, r.probe)
 	d.relays[name] = r
 	if !d.sync(r) {
@@ -311,11 +364,21 @@ func (d *drv) connect(name string) string {
 	return "ok"
 }
 
-func (d *drv) disconnect(name string) string {
+func (d *drv) disconnect(name string, hard ...bool) string {
 	r := d.relays[name]
 	if r == nil {
 		return "ok"
 	}
+	if len(hard) > 0 && hard[0] {
+		// the connection is cut in the middle first; the pool must notice on its own, and stopping the relay (now in
+		// its reconnect wait) must still return promptly
+		before := d.pool.Count()
+		r.px.sever()
+		if !waitFor(3*time.Second, func() bool { return d.pool.Count() < before }) {
+			return "poolkeeps-after-cut"
+		}
+	}
+	defer r.px.sever()
 	for c, a := range d.autos {
 		if a.live && d.home[c] == name {
 			if d.stopAuto(c) != "ok" {
@@ -329,7 +392,7 @@ func (d *drv) disconnect(name string) string {
 	}
 	delete(d.relays, name)
 	// the pool notices the lost connection, stops its collector and unsubscribes it
-	if !waitFor(3*time.Second, func() bool { return d.pool.Count() < before }) {
+	if !(len(hard) > 0 && hard[0]) && !waitFor(3*time.Second, func() bool { return d.pool.Count() < before }) {
 		return "poolkeeps"
 	}
 	return "ok"
@@ -606,7 +669,7 @@ func run(sc vh.Scenario, dir string, rec *vh.Rec) {
 		case "Connect":
 			ev["res"] = d.connect(st.Str("r"))
 		case "Disconnect":
-			ev["res"] = d.disconnect(st.Str("r"))
+			ev["res"] = d.disconnect(st.Str("r"), st.Bool("hard"))
 		case "AddB":
 			ev["res"] = d.addTask(st.Str("t"), "bcast", "")
 		case "AddT":
